@@ -184,7 +184,7 @@ func runContracts(eng *Engine, prop, fnFilter, work string, timeout time.Duratio
 			if prop == "C08" {
 				// only the obligations of the locking protocol (and the precondition's satisfiability)
 				switch {
-				case o.Kind == "guarded" || o.Kind == "lock" || o.Kind == "lock-balance" || o.Kind == "monitor":
+				case o.Kind == "guarded" || o.Kind == "lock" || o.Kind == "lock-atomic" || o.Kind == "lock-balance" || o.Kind == "monitor":
 				case o.Cover && strings.HasSuffix(o.Name, "#cover:requires"):
 				default:
 					continue
